@@ -63,7 +63,7 @@ inline const Val &val_of(int b, int c) { return (c & 2) ? VALS2[b % NVALS2] : VA
 // enable_iat argument: "0 to disable, any other value to enable" (jwt.h); odd op arguments enable, with every kind of truthy value
 static const int IAT_ON[] = {1, 2, -1, 256, 7, INT_MIN, 1 << 16, 255};
 inline int iat_arg(int a) { return (a & 1) ? IAT_ON[(a >> 1) % 8] : 0; }
-enum { CB_NONE, CB_MUTATE, CB_SELECT_KEY, CB_SELECT_PUB, CB_FAIL, CB_SELECT_KEY_ALG, CB_N };
+enum { CB_NONE, CB_MUTATE, CB_SELECT_KEY, CB_SELECT_PUB, CB_FAIL, CB_SELECT_KEY_ALG, CB_N, CB_UNSIGN = 100 };   // CB_UNSIGN (outside the modulo range, see cb_kind_of): the callback takes key and algorithm away - this token is unsigned
 static const char *CBN[] = {"none", "mutating", "selects-key", "selects-public-key", "fails", "selects-key+alg"};
 static const long OFFS[] = {0, -1, -3600, 1, 60, 3600, 1L << 31};
 static const long long CLK[] = {0, 1, 1700000000, 1893456000, 1LL << 33};
@@ -76,8 +76,15 @@ struct BModel {
 };
 
 struct CbCtx { int kind; int count; };
-inline int builder_cb(jwt_t *jwt, jwt_config_t *c) {
-  CbCtx *x = (CbCtx *)c->ctx; x->count++;
+inline int builder_cb_body(jwt_t *jwt, jwt_config_t *c, CbCtx *x);
+inline int builder_cb(jwt_t *jwt, jwt_config_t *c) { return builder_cb_body(jwt, c, (CbCtx *)c->ctx); }
+// registered WITHOUT a context (setcb(b, cb, NULL)): state in a global; only for the kinds that keep no per-builder count
+inline CbCtx &noctx_bstate() { static CbCtx v{0, 0}; return v; }
+inline int builder_cb_noctx(jwt_t *jwt, jwt_config_t *c) { if (c->ctx) return 1; return builder_cb_body(jwt, c, &noctx_bstate()); }
+inline bool &allow_noctx() { static bool b = false; return b; }   // (also enables CB_UNSIGN)
+inline int cb_kind_of(int a, int b) { int kind = a % CB_N; if (allow_noctx() && kind == CB_FAIL && (b % 4) == 3) kind = CB_UNSIGN; return kind; }
+inline int builder_cb_body(jwt_t *jwt, jwt_config_t *c, CbCtx *x) {
+  x->count++;
   switch (x->kind) {
   case CB_MUTATE: {   // a well-behaved application: a set that reports failure (only possible under fault injection, C17) fails the callback
     jwt_value_t v = val_int("cb", x->count, 1); if (jwt_claim_set(jwt, &v)) return 1; jwt_header_del(jwt, "x"); v = val_str("cbh", "v", 1); if (jwt_header_set(jwt, &v)) return 1; jwt_claim_del(jwt, "sub"); return 0; }
@@ -85,6 +92,7 @@ inline int builder_cb(jwt_t *jwt, jwt_config_t *c) {
   case CB_SELECT_PUB: c->key = keytab()[4].lk->item; return 0;
   case CB_SELECT_KEY_ALG: c->key = keytab()[0].lk->item; c->alg = JWT_ALG_HS384; return 0;
   case CB_FAIL: return 1;
+  case CB_UNSIGN: c->key = nullptr; c->alg = JWT_ALG_NONE; return 0;
   }
   return 0;
 }
@@ -117,7 +125,10 @@ inline BResult apply(BExec &x, const BOp &o) {
   case B_IAT: r.code = jwt_builder_enable_iat(b, iat_arg(o.a)); break;
   case B_OFFSET: r.code = jwt_builder_time_offset(b, (o.a % 3 == 0) ? JWT_CLAIM_EXP : (o.a % 3 == 1) ? JWT_CLAIM_NBF : JWT_CLAIM_ISS, (time_t)OFFS[o.b % 7]); break;
   case B_SETKEY: { int key = (o.b % ((int)keytab().size() + 1)) - 1; r.code = jwt_builder_setkey(b, ALGCH[o.a % NALGCH], key < 0 ? nullptr : keytab()[key].lk->item) ? 1 : 0; break; }
-  case B_SETCB: { int kind = o.a % CB_N; x.cx.kind = kind; r.code = jwt_builder_setcb(b, kind == CB_NONE ? nullptr : builder_cb, kind == CB_NONE ? nullptr : &x.cx); break; }
+  case B_SETCB: { int kind = cb_kind_of(o.a, o.b); x.cx.kind = kind;
+    if (allow_noctx() && kind != CB_NONE && kind != CB_MUTATE && (o.b % 5) == 4) { noctx_bstate().kind = kind; r.code = jwt_builder_setcb(b, builder_cb_noctx, nullptr); }
+    else r.code = jwt_builder_setcb(b, kind == CB_NONE ? nullptr : builder_cb, kind == CB_NONE ? nullptr : &x.cx);
+    break; }
   case B_CLOCK: set_now((time_t)CLK[o.a % 5]); break;
   case B_ERRCLR: jwt_builder_error_clear(b); break;
   case B_GEN: { r.is_gen = true; char *t = jwt_builder_generate(b); r.null = !t; if (t) { r.token = t; free(t); } r.err = jwt_builder_error(b); r.msg = jwt_builder_error_msg(b) ? jwt_builder_error_msg(b) : ""; break; }
@@ -140,6 +151,7 @@ inline GenExpect expect_generate(const BModel &m, int cb_count_next) {
   case CB_SELECT_PUB: key = 4; break;
   case CB_SELECT_KEY_ALG: key = 0; alg = JWT_ALG_HS384; break;
   case CB_FAIL: e.fail = true; e.why = "callback-error"; return e;
+  case CB_UNSIGN: key = -1; alg = JWT_ALG_NONE; break;
   }
   if (!admits(alg, key)) { e.fail = true; e.why = "not-admitted"; return e; }
   if (alg == JWT_ALG_NONE && key >= 0) alg = keytab()[key].attr_alg;
@@ -162,7 +174,7 @@ inline int model_apply(BModel &m, const BOp &o) {
   case B_IAT: { int prev = m.iat ? 1 : 0; m.iat = o.a & 1; return prev; }
   case B_OFFSET: { long s = OFFS[o.b % 7]; if (o.a % 3 == 0) { m.exp_off = s; m.exp_on = s > 0; return 0; } if (o.a % 3 == 1) { m.nbf_off = s; m.nbf_on = s > 0; return 0; } return 1; }
   case B_SETKEY: { int key = (o.b % ((int)keytab().size() + 1)) - 1; int alg = ALGCH[o.a % NALGCH]; if (!admits(alg, key)) return 1; m.alg = alg; m.key = key; return 0; }
-  case B_SETCB: m.cb = o.a % CB_N; return 0;
+  case B_SETCB: m.cb = cb_kind_of(o.a, o.b); return 0;
   case B_CLOCK: m.now = CLK[o.a % 5]; return -1000;
   case B_ERRCLR: return -1000;
   }
@@ -178,7 +190,7 @@ inline std::string bop_str(const BOp &o) {
   case B_IAT: s += std::to_string(iat_arg(o.a)); break;
   case B_OFFSET: s += std::string(o.a % 3 == 0 ? "exp" : o.a % 3 == 1 ? "nbf" : "iss") + "," + std::to_string(OFFS[o.b % 7]); break;
   case B_SETKEY: { int key = (o.b % ((int)keytab().size() + 1)) - 1; jwt_alg_t a = ALGCH[o.a % NALGCH]; s += std::string(a == JWT_ALG_NONE ? "none" : jwt_alg_str(a)) + "," + (key < 0 ? "NULL" : keytab()[key].label); break; }
-  case B_SETCB: s += CBN[o.a % CB_N]; break;
+  case B_SETCB: s += cb_kind_of(o.a, o.b) == CB_UNSIGN ? "takes-key-and-alg-away" : CBN[o.a % CB_N]; if (allow_noctx() && o.a % CB_N != CB_NONE && o.a % CB_N != CB_MUTATE && (o.b % 5) == 4) s += ",registered-without-ctx"; break;
   case B_CLOCK: s += std::to_string(CLK[o.a % 5]); break;
   }
   return s + ")";
